@@ -25,7 +25,10 @@ fn run_api(c: &S) -> S {
     use bt_harness::bbi::{write_bigwig, Opts};
     let b = c.at(1).u32();
     let zres = c.at(4).u32();
-    let name = |k: u32| format!("c{:04}", k);
+    // flag (6th field): chromosome names in DESCENDING byte order while ids stay in order of appearance
+    // (input_sort_type START): the index works with ids, never with the position of a name in a sorted list
+    let descending = c.l().len() > 5 && c.at(5).n() == 1;
+    let name = move |k: u32| if descending { format!("c{:04}", 9999 - k) } else { format!("c{:04}", k) };
     let mut sizes = std::collections::HashMap::new();
     let mut items = vec![];
     for s in c.at(2).l() {
@@ -34,7 +37,7 @@ fn run_api(c: &S) -> S {
         *e = (*e).max(en + 10);
         items.push((name(ch), bigtools::Value { start: st, end: en, value: 1.0 }));
     }
-    let o = Opts { compress: false, ips: 1, bs: b, izoom: 160, maxzooms: 10, manual: Some(vec![zres]), sort_all: true };
+    let o = Opts { compress: false, ips: 1, bs: b, izoom: 160, maxzooms: 10, manual: Some(vec![zres]), sort_all: !descending };
     let bytes = match write_bigwig(0, &o, sizes, items, 2) {
         Ok(x) => x,
         Err(code) => return sl![a(1), a(code)],
